@@ -233,7 +233,10 @@ def analyse(ctx, run, bools, reports):
                 bools.append(('forallb (fun p => text_agrees (fst p) (snd p)) ' + _slist(f'({qconv.q(a)}, {qconv.q(b)})' for a, b in zip(tx, rep)),
                               lambda o=o, js=js, txt=txt: ctx.violate('property', 'stats:text-vs-json', f'text summary of {o} differs from the JSON summary',
                                                                       inp=_inp(run), expected=js[o], observed=txt[o])))
-    ctx.count(part, evaluations=len(chosen) + nstats + 1, nontrivial_keys=list(fresh),
+    negative = sum(1 for r in rows for x in r['outs'] if x.startswith('-'))
+    if 'negative' in run.name and not negative:
+        ctx.note(f'{run.name}: no negative output value in the rows - the seed no longer tracks what it is there for')
+    ctx.count(part, evaluations=len(chosen) + nstats + 1, nontrivial_keys=list(fresh), negative_output_values={negative: 1},
               workers={run.W: 1}, failing_iterations={len(run.tasks) - len(run.ok_tasks): 1})
     ctx.sample(part, {'W': run.W, 'settings': run.settings, 'rows': len(rows), 'failed': len(run.tasks) - len(run.ok_tasks)})
 
@@ -249,8 +252,9 @@ def judge(ctx, runs, bools, max_rows):
 
 def specs(ctx):
     rnd, q = ctx.rng, ctx.quick
+    # + Project NPV (negative for example1: the sign must survive extraction, re-reading and statistics)
     # + a label that is a substring of another report line ('Drilling and completion costs per well'): the match must be exact
-    geo_st = (mc.MC_TESTS / 'MC_GEOPHIRES_Settings_file.txt').read_text().rsplit('ITERATIONS', 1)[0] + 'OUTPUT, Drilling and completion costs\n'
+    geo_st = (mc.MC_TESTS / 'MC_GEOPHIRES_Settings_file.txt').read_text().rsplit('ITERATIONS', 1)[0] + 'OUTPUT, Drilling and completion costs\nOUTPUT, Project NPV\n'
     geo2_st = (mc.MC_TESTS / 'MC_GEOPHIRES_Settings_file-2.txt').read_text().rsplit('ITERATIONS', 1)[0]
     geo = (mc.MC_TESTS / 'GEOPHIRES-example1.txt').read_text()
     geo2 = (mc.MC_TESTS / 'GEOPHIRES-example_SHR-2.txt').read_text()
